@@ -11,7 +11,7 @@ import impl
 import metam
 import popgen
 
-PRELUDE = ("From GettsimModel Require Import Dag ChkC16.\nFrom GettsimGen Require Import GenRules GenYaml GenDag GenConfig.\n"
+PRELUDE = ("From GettsimModel Require Import Dag ChkC16 Absint.\nFrom GettsimGen Require Import GenRules GenYaml GenDag GenConfig.\n"
            "Definition PA := params_at yaml_groups internal_params_groups.\n")
 LO = 735599
 CAPS = [("arbeitsl_geld_2_m_bg", "arbeitsl_geld_2_vor_vorrang_m_bg"), ("wohngeld_m_wthh", "wohngeld_anspruchshöhe_m_wthh"),
@@ -19,27 +19,34 @@ CAPS = [("arbeitsl_geld_2_m_bg", "arbeitsl_geld_2_vor_vorrang_m_bg"), ("wohngeld
 
 
 def baseline():
-    return json.loads((C.VERIF / "c16_baseline.json").read_text(encoding="utf-8"))["nodes"]
+    return json.loads((C.VERIF / "c16_baseline.json").read_text(encoding="utf-8"))["dates"]
+
+
+def coq_list(names):
+    return "[" + "; ".join(f'"{n}"' for n in names) + "]"
 
 
 def obligations():
     base = baseline()
-    lst = "[" + "; ".join(f'"{n}"' for n in base) + "]"
     obls = []
-    for i in range(4):
-        sel = f"(filter (fun od => Z.leb {LO} (fst od) && Z.eqb (Z.modulo (fst od) 4) {i}) dags)"
+    dates = sorted(int(d) for d in base)
+    for d in dates:
+        b = base[str(d)]
+        nn, fin = b["nn"], b["nn"] + b["fin_only"]
+        K = f"(a_nodes all_fundefs p dag_data_cols (subgraph (snd od) default_targets) [])"
         obls.append(dict(
-            name=f"c16_proved_nodes_{i}",
-            stmt=f"forallb (fun od => match PA (fst od) with Ok p => let S := subgraph (snd od) default_targets in "
-                 f"let K := nn_nodes all_fundefs p (inputs_nonneg dag_data_cols) S [] in "
-                 f"forallb (fun n => negb (Sign.smem (d_name n) {lst}) || Sign.smem (d_name n) K) S | Err _ => false end) {sel} = true",
+            name=f"c16_proved_nodes_{d}",
+            stmt=f"match find (fun od => Z.eqb (fst od) {d}) dags, PA {d} with Some od, Ok p => let K := {K} in "
+                 f"let NN := nodes_with a_nn K in let FIN := nodes_with a_fin K in "
+                 f"forallb (fun n => Sign.smem n NN) {coq_list(nn)} && forallb (fun n => Sign.smem n FIN) {coq_list(b['fin_only'])} | _, _ => false end = true",
             proof="vm_cast_no_check (@eq_refl bool true).",
-            what=f"for every date class >= 2015 (shard {i} of 4): every node of the default targets' graph that is listed in c16_baseline.json "
-                 f"({len(base)} nodes) is proved finite and non-negative by the verified analysis (rules: Sign.nn_s on the regenerated ASTs with the "
-                 f"concrete parameters of the date; derived nodes: sums / counts / max / min / conversions of proved columns; rounding with base > 0, offset >= 0)",
-            diag=f'String.concat ";" (flat_map (fun od => match PA (fst od) with Ok p => let S := subgraph (snd od) default_targets in '
-                 f'let K := nn_nodes all_fundefs p (inputs_nonneg dag_data_cols) S [] in map (fun n => Corr.show_z (fst od) ++ ":" ++ d_name n) '
-                 f'(filter (fun n => Sign.smem (d_name n) {lst} && negb (Sign.smem (d_name n) K)) S) | Err _ => ["env"] end) {sel})'))
+            what=f"{impl.iso(d)}: the verified abstract interpreter (Absint.rule_aval_sound; regenerated rule ASTs, concrete parameters of the date, the real "
+                 f"loader's graph) proves {len(fin)} nodes of the default targets' graph finite, {len(nn)} of them also non-negative "
+                 f"({len(b['not_proved'])} nodes not proved: dates, first-threshold schedules, sums over data-dependent ranges)",
+            diag=f'match find (fun od => Z.eqb (fst od) {d}) dags, PA {d} with Some od, Ok p => let K := {K} in '
+                 f'let NN := nodes_with a_nn K in let FIN := nodes_with a_fin K in '
+                 f'String.concat ";" (map (fun n => "{impl.iso(d)}:nn:" ++ n) (filter (fun n => negb (Sign.smem n NN)) {coq_list(nn)}) ++ '
+                 f'map (fun n => "{impl.iso(d)}:fin:" ++ n) (filter (fun n => negb (Sign.smem n FIN)) {coq_list(b["fin_only"])})) | _, _ => "env" end'))
     return obls
 
 
@@ -67,7 +74,7 @@ def corner_population(rnd, year, n_hh):
 
 def run(ctx, res):
     impl.setup()
-    out = coqrun.prove("C16", PRELUDE + "Open Scope Z_scope.\n", obligations(), shards=4, timeout=1700)
+    out = coqrun.prove("C16", PRELUDE + "Open Scope Z_scope.\n", obligations(), shards=12, timeout=1700)
     res.obligations += out
     rnd = ctx.rng("c16")
     rules = ctx.load_rules()
@@ -146,7 +153,11 @@ def run(ctx, res):
     res.evaluations += stats["cells"]
     res.distinct += stats["runs"]
     res.extra["engine"] = stats
-    res.extra["baseline_nodes"] = len(baseline())
+    b = baseline()
+    res.extra["baseline"] = dict(dates=len(b), node_dates=sum(len(v["nn"]) + len(v["fin_only"]) + len(v["not_proved"]) for v in b.values()),
+                                 proved_finite=sum(len(v["nn"]) + len(v["fin_only"]) for v in b.values()), proved_nonneg=sum(len(v["nn"]) for v in b.values()),
+                                 default_targets_2024=dict(nn=[t for t in b.get("738886", {}).get("nn", []) if t in metam.dag_for(738886)["targets"]],
+                                                           fin_only=[t for t in b.get("738886", {}).get("fin_only", []) if t in metam.dag_for(738886)["targets"]]))
     res.rule = ("corner populations through the real engine at sampled (thorough: all) date classes >= 2015: zero and 1e6 / 1e9 incomes and wealth, negative "
                 "rental income, ages 0-100, large families, pension corner values: EVERY numeric column of the default targets' graph must be finite, every "
                 "default target non-negative, paid benefits <= the entitlement before the priority checks, Elterngeld <= maximum + bonuses. "
